@@ -155,6 +155,12 @@ var c10Queries2 = []string{
 	"SELECT * FROM t x PARALLEL JOIN u y ON x.a >= y.a AND SETVAR('k', 1) IS NULL",
 	"SELECT * FROM t x PARALLEL LEFT JOIN u y ON x.a >= y.a AND GETVAR('k') IS NULL",
 	"SELECT a, ASYNC.vfail(SETVAR('k', a)) FROM t",
+	// the navigation marker read as a value, inside subqueries over dual
+	"SELECT a, (SELECT `<-` = 1 FROM dual) AS f FROM t",
+	"SELECT a FROM t WHERE EXISTS (SELECT 1 FROM dual WHERE `<-` LIKE 'x')",
+	"SELECT a, (SELECT CONCAT(`<-`, 'x') AS c FROM dual) AS f FROM t",
+	"SELECT a, (SELECT (SELECT `<-<-` IS NULL FROM dual) AS g FROM dual) AS f FROM t",
+	"SELECT DISTINCT a, `<-` AS up FROM t WHERE a IN (SELECT a FROM `<-t`)",
 	// sources that are not arrays of objects
 	"SELECT * FROM a",
 	"SELECT * FROM `a.b`",
@@ -173,6 +179,9 @@ func H_C10_queries2() {
 		"t": []any{Map{"a": a, "s": verif.Str("s", 1, "a%"), "o": Map{"k": a}, "arr": []any{a}}, Map{"a": float64(2), "s": "x", "o": nil, "arr": []any{}}},
 		"u": []any{Map{"a": float64(2)}, Map{"a": Map{"b": a}}},
 		"a": Map{"b": a},
+	}
+	if oi != 0 && hasAny(c10Queries2[qi], "PARALLEL") {
+		verif.Assume(false) // goroutine-running queries: one option set
 	}
 	var opts []QueryOption
 	if oi&1 != 0 {
@@ -371,8 +380,7 @@ func H_C10_reexec() {
 		"a": Map{"b": a},
 	}
 	RegisterFunction("vfail", failingFunc)
-	verif.Opt("schedules", 1)
-	verif.Opt("preempt", 0)
+	// one schedule: the subject is what a failed execution leaves behind, not the interleaving
 	var opts []QueryOption
 	if withVars == 1 {
 		opts = append(opts, WithVars(map[string]any{}))
